@@ -132,6 +132,21 @@ def split_items(src, m, lo, hi):
         it.attr_end = i
         if i >= hi:
             raise ScanError('dangling attributes at %d' % it.start)
+        mac = re.match(r'(?:pub(?:\s*\([^)]*\))?\s+)?([A-Za-z_][\w:]*)\s*!\s*([\{\(\[])', m[i:hi])
+        if mac and mac.group(1) != 'macro_rules':
+            # macro invocation in item position (thread_local!, lazy_static!, ...): kept verbatim as one opaque item
+            j = i + mac.end() - 1
+            k = match_close(m, j)
+            e = k + 1
+            p2 = skip_ws(m, e, hi)
+            if p2 < hi and m[p2] == ';':
+                e = p2 + 1
+            it.kind, it.hdr_end, it.body_lo, it.body_hi, it.end = 'macro', j, -1, -1, e
+            it.header = ' '.join(src[it.attr_end:j].split())
+            it.name = mac.group(1)
+            items.append(it)
+            i = skip_ws(m, it.end, hi)
+            continue
         km = _KW.search(m, i, hi)
         if not km:
             raise ScanError('no item keyword after %d: %r' % (i, src[i:i + 40]))
